@@ -12,7 +12,8 @@ if r.returncode != 0:
 res = {}
 try:
     for i in ids:
-        p = subprocess.run(["/verif/check", i, "quick"], capture_output=True, text=True, cwd="/verif")
+        p = subprocess.run(["/verif/check", i, "quick"], capture_output=True, text=True, cwd="/verif",
+                           env=dict(os.environ, PCV_EVIDENCE_DIR="/tmp/pcv-evidence-scratch"))
         res[i] = p.returncode
         lines = [l for l in p.stdout.splitlines() if l.startswith(("VIOLATION", "  what=", "  rule=", "ERROR", "KNOWN"))]
         print("== %s exit=%d" % (i, p.returncode))
